@@ -593,3 +593,61 @@ func TestVerifC02Describe(t *testing.T) {
 	out.Put(1, "text=%d layout=%s", len(snapshot), strings.Join(lay, ","))
 	_ = unsafe.Sizeof(0)
 }
+
+// TestVerifC02Stale is the oracle-only lane for mocker handles that are used again after their own Cancel / the builder's
+// Reset (`m := b.Func(f); m.Return(..); m.Cancel(); m.Return(..)`): lines `c02.stale <via> <target> <first> <undo> <second>`
+// with first/second ∈ {a, r} and undo ∈ {c, x}.  Observation: behaviour class of the target after each of the four phases
+// (mock, undo, mock again through the SAME handle, Reset) and the image diff after the final Reset.
+func TestVerifC02Stale(t *testing.T) {
+	setup()
+	out := vh.OpenOut()
+	defer out.Close()
+	from, _ := strconv.Atoi(os.Getenv("VERIF_FROM"))
+	for _, op := range vh.ReadOps() {
+		if op.Idx < from || len(op.Toks) != 6 || op.Toks[0] != "c02.stale" {
+			continue
+		}
+		fmt.Fprintf(os.Stderr, "c02 running %d\n", op.Idx)
+		ti, err := strconv.Atoi(op.Toks[2])
+		if err != nil || ti < 0 || ti >= len(targets) || (op.Toks[1] != "f" && op.Toks[1] != "m") || (op.Toks[1] == "m" && targets[ti].method == "") {
+			out.Put(op.Idx, "bad-op")
+			continue
+		}
+		tg := targets[ti]
+		h := &hist{b: []*mocker.Builder{mocker.Create()}}
+		var m mocker.ExportedMocker
+		res := vh.Catch(func() string {
+			m = h.exported(h.b[0], op.Toks[1], tg)
+			mock := func(kind string, n int) {
+				if kind == "a" {
+					if tg.method != "" {
+						m.Apply(cbM[n])
+					} else {
+						m.Apply(cbF[n])
+					}
+				} else {
+					m.Return(200000 + n)
+				}
+			}
+			var obs []string
+			mock(op.Toks[3], 1)
+			obs = append(obs, safeCall(tg.call, tg.orig))
+			if op.Toks[4] == "c" {
+				m.Cancel()
+			} else {
+				h.b[0].Reset()
+			}
+			obs = append(obs, safeCall(tg.call, tg.orig))
+			mock(op.Toks[5], 2)
+			obs = append(obs, safeCall(tg.call, tg.orig))
+			h.b[0].Reset()
+			obs = append(obs, safeCall(tg.call, tg.orig))
+			return strings.Join(obs, ",")
+		})
+		end := cleanup(h)
+		out.Put(op.Idx, "%s end d=%s", res, end)
+		if strings.HasSuffix(end, "dirty") {
+			os.Exit(3)
+		}
+	}
+}
